@@ -157,7 +157,9 @@ def t_cleanup_real(ctx):
     k = ctx.cfg['k']
     K = ctx.cfg['K']
     N = int(ctx.int('N', 1, K))
-    kinds = [ctx.pick(f's{i}', ('pending', 'started', 'completed', 'completed_nohandlers')) for i in range(k)]
+    # restarted: completed (signal set) on one bus, then in flight again on another (forwarding / re-dispatch of the same object);
+    # waiting_children: all handlers returned but a child event is still pending — both are in flight, not completed
+    kinds = [ctx.pick(f's{i}', ('pending', 'started', 'completed', 'completed_nohandlers', 'restarted', 'waiting_children')) for i in range(k)]
     perms = list(itertools.permutations(range(k)))
     pi = int(ctx.int('perm', 0, max(0, len(perms) - 1)))
     order = perms[pi] if perms else ()
@@ -170,6 +172,10 @@ def t_cleanup_real(ctx):
 
         def h(ev):
             return None
+
+        def h2(ev):
+            return None
+        bus2 = env.EventBus(name='K2')
         objs = {}
         for i in range(k):
             e = C(event_created_at=base + datetime.timedelta(seconds=int(order[i])))
@@ -181,6 +187,16 @@ def t_cleanup_real(ctx):
             elif kinds[i] == 'completed_nohandlers':
                 _ = e.event_completed_signal
                 e.event_mark_complete_if_all_handlers_completed()
+            elif kinds[i] == 'restarted':
+                e.event_result_update(handler=h, eventbus=bus, status='started')
+                e.event_result_update(handler=h, eventbus=bus, result='x')
+                _ = e.event_completed_signal
+                e.event_mark_complete_if_all_handlers_completed()
+                e.event_result_update(handler=h2, eventbus=bus2, status='started')
+            elif kinds[i] == 'waiting_children':
+                r = e.event_result_update(handler=h, eventbus=bus, status='started')
+                r.event_children.append(C(event_parent_id=e.event_id))
+                e.event_result_update(handler=h, eventbus=bus, result='x')
             objs[e.event_id] = e
         st0 = {eid: e.event_status for eid, e in objs.items()}
         bus.event_history = dict(objs)
@@ -188,20 +204,22 @@ def t_cleanup_real(ctx):
         out['kept'] = list(bus.event_history)
         out['objs'] = objs
         out['st0'] = st0
-        out['results_intact'] = all(len(e.event_results) == (0 if kinds[i] in ('pending', 'completed_nohandlers') else 1) for i, e in enumerate(objs.values()))
+        out['results_intact'] = all(len(e.event_results) == {'pending': 0, 'completed_nohandlers': 0, 'restarted': 2}.get(kinds[i], 1) for i, e in enumerate(objs.values()))
+        out['kind_of'] = {e.event_id: kinds[i] for i, e in enumerate(objs.values())}
 
     ctx.run(main())
     objs, kept, st0 = out['objs'], out['kept'], out['st0']
     ctx.check('C13.bound', len(kept) == min(k, N), kept=len(kept), N=N, k=k)
-    rank = {'completed': 0, 'started': 1, 'pending': 2}
+    rank_of_kind = {'completed': 0, 'completed_nohandlers': 0, 'started': 1, 'restarted': 1, 'waiting_children': 1, 'pending': 2}
+    rk = {eid: rank_of_kind[kd] for eid, kd in out['kind_of'].items()}
     bad = []
     for r in objs:
         if r in kept:
             continue
         for kk in kept:
             a, b = objs[r], objs[kk]
-            if rank[st0[r]] > rank[st0[kk]] or (rank[st0[r]] == rank[st0[kk]] and a.event_created_at > b.event_created_at):
-                bad.append((st0[r], st0[kk]))
+            if rk[r] > rk[kk] or (rk[r] == rk[kk] and a.event_created_at > b.event_created_at):
+                bad.append((out['kind_of'][r], out['kind_of'][kk]))
     ctx.check('C13.order', not bad, bad=bad[:3], kinds=kinds)
     ctx.check('C13.eviction_leaves_events_intact', bool(out['results_intact']) and all(objs[e].event_status == st0[e] for e in objs),
               why='eviction changed an event (its results / status)')
